@@ -432,6 +432,8 @@ RefCompare(scn, obs) ==
             THEN {px \o ".BackendSeesSameRequest"} ELSE {})
       \cup (IF ClientCanon(obs.cl) = ClientCanon(obs.ref.cl) THEN {} ELSE {px \o ".ClientSeesSameResponse"})
       \cup (IF obs.ret.panic = obs.ref.ret.panic THEN {} ELSE {px \o ".SamePanic"})
+      \* (alone or not: the transcoder does not panic unless the handler does)
+      \cup (IF obs.ret.panic /\ scn.hd.exit # "panic" THEN {px \o ".NoPanic"} ELSE {})
 
 (***************************************************************************)
 (* Buffer-pool protocol on the recorded hook events of a shared            *)
@@ -449,6 +451,8 @@ PoolFaults(events, k, inPool) ==
            [] e.ev = "get" ->
                 (IF e.buf \in inPool THEN {} ELSE {"GetOfLiveBuffer"})
                 \cup PoolFaults(events, k + 1, inPool \ {e.buf})
+           \* (recorder: a released, poisoned buffer was found written to or grown)
+           [] e.ev = "dirty" -> {"UseAfterPut"} \cup PoolFaults(events, k + 1, inPool)
            [] OTHER -> PoolFaults(events, k + 1, inPool)
 
 PoolSound(scn, obs) ==
